@@ -200,8 +200,18 @@ def r_block_coordinates(ctx):
                 val = Q.unwrap(e.data[2])
                 if ix is not None and is_const(ix) and val[0] == "sub" and val[1][0] == "sub" and val[1][1] == ("param", "block_coordinates") and is_int(val[1][2]):
                     u = val[2]
-                    got[ix[1]] = (val[1][2][1], "unique" if (u[0] == "call" and callee(u) == "numpy.unique" and u[2] == (("param", "labels"),)) else ("labels" if u == ("param", "labels") else "?"))
-            ok = True if got == {0: (0, "unique"), 1: (1, "unique")} else (False if got and all(v[1] in ("unique", "labels") for v in got.values()) else None)
+                    how = "?"
+                    if u[0] == "call" and callee(u) == "numpy.unique" and u[2] == (("param", "labels"),):
+                        how = "unique"
+                    elif u == ("param", "labels"):
+                        how = "labels"
+                    elif u[0] == "attr" and u[2] == "index" and groupby_info(u[1])[0] is not None:
+                        # index of the aggregated frame: the sorted group keys (= np.unique(labels)) unless as_index=False (then 0..n-1)
+                        _f, by_, gkw_, _r = groupby_info(u[1])
+                        how = "unique" if gkw_.get("as_index") in (None, const(True)) and by_ == const("block") and gkw_.get("sort") in (None, const(True)) else \
+                            ("positions" if gkw_.get("as_index") == const(False) else "?")
+                    got[ix[1]] = (val[1][2][1], how)
+            ok = True if got == {0: (0, "unique"), 1: (1, "unique")} else (False if got and all(v[1] in ("unique", "labels", "positions") for v in got.values()) else None)
             ctx.check("R4", "%s|centres-by-sorted-unique-labels|%s" % (qn, tag), ok, "column i = block_coordinates[i][np.unique(labels)] for i in {0, 1}: the centre of that very block, in group order",
                       bad="centre coordinates are looked up as %s" % got, fn=qn)
         v = Q.unseq(p.value)
